@@ -2,7 +2,7 @@
 // lean/Nstd/Seq/Driver.lean on the real include/nstd/{List,PoolList,Array}.hpp.
 //
 // Observation line (see Driver.lean):
-//    r=<ret|-> n=<#new[]> d=<#delete[]> | l<v> <size> <isEmpty> <values> <node ids> | ...
+//    r=<ret|-> n=<#new[]> d=<#delete[]> | l<v> <size> <isEmpty> <values> <node ids> <free-list node ids> | ...
 //    a<v> <size> <capacity> <has storage> <values>
 // Node ids are <items per block>*block + slot with the blocks numbered in allocation order (white-box read of the
 // `blocks` chain); returned iterators / references are printed as positions.
@@ -50,6 +50,44 @@ struct Tagged
   bool operator==(const Tagged& o) const { return k == o.k && tag == o.tag; }
   bool operator!=(const Tagged& o) const { return !(*this == o); }
 };
+// the same element with OTHER comparison functions as `operator<` (the only "comparator" List::sort() has):
+// TaggedLe: a NON-strict comparison (`<=` on the key);  TaggedOdd: an inconsistent one (neither asymmetric nor transitive:
+// 1 < 0, 0 < 2, 2 < 1).  sort() must terminate, stay inside the list (ASan) and leave a permutation for both; the exact
+// arrangement is compared with the model's (`sortVals leKey` / `sortVals ltOdd`).
+struct TaggedLe
+{
+  int k, tag;
+  TaggedLe() : k(0), tag(0) {}
+  TaggedLe(int k, int tag) : k(k), tag(tag) {}
+  bool operator<(const TaggedLe& o) const { return k <= o.k; }
+};
+struct TaggedOdd
+{
+  int k, tag;
+  TaggedOdd() : k(0), tag(0) {}
+  TaggedOdd(int k, int tag) : k(k), tag(tag) {}
+  bool operator<(const TaggedOdd& o) const { return (k + 2 * o.k) % 3 == 1; }
+};
+// element constructed in place by PoolList::append with 0 .. 7 arguments
+struct Multi
+{
+  int n, v[7];
+  Multi() : n(0) { fill(); }
+  Multi(int a) : n(1) { fill(); v[0] = a; }
+  Multi(int a, int b) : n(2) { fill(); v[0] = a; v[1] = b; }
+  Multi(int a, int b, int c) : n(3) { fill(); v[0] = a; v[1] = b; v[2] = c; }
+  Multi(int a, int b, int c, int d) : n(4) { fill(); v[0] = a; v[1] = b; v[2] = c; v[3] = d; }
+  Multi(int a, int b, int c, int d, int e) : n(5) { fill(); v[0] = a; v[1] = b; v[2] = c; v[3] = d; v[4] = e; }
+  Multi(int a, int b, int c, int d, int e, int f) : n(6) { fill(); v[0] = a; v[1] = b; v[2] = c; v[3] = d; v[4] = e; v[5] = f; }
+  Multi(int a, int b, int c, int d, int e, int f, int g) : n(7) { fill(); v[0] = a; v[1] = b; v[2] = c; v[3] = d; v[4] = e; v[5] = f; v[6] = g; }
+  void fill() { for(int i = 0; i < 7; ++i) v[i] = -1; }
+};
+static List<TaggedLe>* el;
+alignas(List<TaggedLe>) static unsigned char emem[sizeof(List<TaggedLe>)];
+static List<TaggedOdd>* xl;
+alignas(List<TaggedOdd>) static unsigned char xmem[sizeof(List<TaggedOdd>)];
+static PoolList<Multi>* ml;
+alignas(PoolList<Multi>) static unsigned char mmem[sizeof(PoolList<Multi>)];
 static List<Tagged>* tl;
 alignas(List<Tagged>) static unsigned char tmem[sizeof(List<Tagged>)];
 // PoolList of the same type: constructed in place through the two-argument append(A, B)
@@ -78,6 +116,9 @@ static void resetAll()
     lv[i] = new(lmem[i]) L;
     if(i == 0) { if(tl) tl->~List<Tagged>(); tl = new(tmem) List<Tagged>; }
     if(i == 0) { if(ptl) ptl->~PoolList<Tagged>(); ptl = new(ptmem) PoolList<Tagged>; }
+    if(i == 0) { if(el) el->~List<TaggedLe>(); el = new(emem) List<TaggedLe>; }
+    if(i == 0) { if(xl) xl->~List<TaggedOdd>(); xl = new(xmem) List<TaggedOdd>; }
+    if(i == 0) { if(ml) ml->~PoolList<Multi>(); ml = new(mmem) PoolList<Multi>; }
     pv[i] = new(pmem[i]) P;
     av[i] = new(amem[i]) A;
   }
@@ -133,6 +174,12 @@ template<class C> static void showList(const char* tag, int v, C& c)
     return;
   }
   printf("%lu %d ", (unsigned long)n, c.isEmpty() ? 1 : 0);
+  {
+    // a default-constructed iterator is assignable and then equal to its source
+    typename C::Iterator d;
+    d = c.begin();
+    if(d != c.begin() || !(d == c.begin())) printf("default-iterator-differs ");
+  }
   if(n == 0) printf("- -");
   else
   {
@@ -156,11 +203,26 @@ template<class C> static void showList(const char* tag, int v, C& c)
         typename C::Iterator nx = ++cx;
         const typename C::Iterator& cn = nx;
         typename C::Iterator back = --cn;
-        if(back != x || cx.operator->() != &*x) printf(" const-iterator-differs");
+        if(back != x || cx.operator->() != &*x || &*cx != &*x || x.operator->() != &*x) printf(" const-iterator-differs");
         x = nx;
       }
       if(x != c.end()) printf(" const-iterator-differs");
     }
+  }
+  // white box: the free list (linked through `prev` from `freeItem`) as node ids, in list order
+  {
+    size_t total = 0;
+    for(typename C::ItemBlock* b = c.blocks; b; b = b->next)
+      total += (allocSizeOf(b) - sizeof(typename C::ItemBlock)) / strideOf(c);
+    printf(" ");
+    size_t k = 0;
+    for(typename C::Item* f = c.freeItem; f; f = f->prev, ++k)
+    {
+      if(k > total) { printf(",cycle"); break; }
+      printf(k ? ",%ld" : "%ld", nodeId(c, f, strideOf(c)));
+    }
+    if(k == 0) printf("-");
+    if(k + n != total) printf(" items-lost:%lu+%lu!=%lu", (unsigned long)k, (unsigned long)n, (unsigned long)total);
   }
 }
 
@@ -185,7 +247,7 @@ static void showArray(int v, A& a)
         A::Iterator nx = ++cx;
         const A::Iterator& cn = nx;
         A::Iterator back = --cn;
-        if(back != x || cx.operator->() != &a[i]) printf(" const-iterator-differs");
+        if(back != x || cx.operator->() != &a[i] || &*cx != &a[i] || x.operator->() != &a[i]) printf(" const-iterator-differs");
         x = nx;
       }
       if(x != a.end()) printf(" const-iterator-differs");
@@ -219,6 +281,37 @@ template<class C> static typename C::Iterator iterAt(C& c, size_t pos)
   typename C::Iterator it = c.begin();
   for(size_t i = 0; i < pos; ++i) ++it;
   return it;
+}
+
+// ops on a List of one of the tagged element types: <c>append k tag, <c>prepend k tag, <c>sort, <c>clear.
+// sort also reports what iterators held across it see: every iterator taken before still designates the item at the same
+// position (same address reached by the same number of increments from begin()), and the first/last item are unchanged
+template<class T> static bool taggedOp(List<T>& c, HxLine& l, char pre)
+{
+  const char* op = l.tok[0] + 1;
+  if(strcmp(op, "append") == 0 && l.ntok == 3) c.append(T((int)hxInt(l, 1), (int)hxInt(l, 2)));
+  else if(strcmp(op, "prepend") == 0 && l.ntok == 3) c.prepend(T((int)hxInt(l, 1), (int)hxInt(l, 2)));
+  else if(strcmp(op, "sort") == 0 && l.ntok == 1)
+  {
+    size_t n = c.size();
+    typename List<T>::Iterator* held = (typename List<T>::Iterator*)malloc((n + 1) * sizeof(typename List<T>::Iterator));
+    size_t i = 0;
+    for(typename List<T>::Iterator it = c.begin(); i <= n; ++i) { held[i] = it; if(i < n) ++it; }
+    c.sort();
+    bool moved = c.size() != n;
+    i = 0;
+    for(typename List<T>::Iterator it = c.begin(); i <= n && !moved; ++i) { if(held[i] != it) moved = true; if(i < n) ++it; }
+    if(!moved && held[n] != c.end()) moved = true;
+    free(held);
+    if(moved) printf("iterators-moved ");
+  }
+  else if(strcmp(op, "clear") == 0 && l.ntok == 1) c.clear();
+  else return false;
+  printf("%c %lu ", pre, (unsigned long)c.size());
+  if(c.isEmpty()) printf("-");
+  size_t i = 0;
+  for(typename List<T>::Iterator it = c.begin(); it != c.end(); ++it, ++i) printf(i ? ",%d:%d" : "%d:%d", it->k, it->tag);
+  return true;
 }
 
 static long ret;
@@ -301,17 +394,55 @@ int main()
       hxEndLine();
       continue;
     }
-    if(op[0] == 't')
+    if(op[0] == 't' || op[0] == 'e' || op[0] == 'x')
     {
-      if(hxIs(l, "tappend", 2)) tl->append(Tagged((int)hxInt(l, 1), (int)hxInt(l, 2)));
-      else if(hxIs(l, "tprepend", 2)) tl->prepend(Tagged((int)hxInt(l, 1), (int)hxInt(l, 2)));
-      else if(hxIs(l, "tsort", 0)) tl->sort();
-      else if(hxIs(l, "tclear", 0)) tl->clear();
+      bool ok = op[0] == 't' ? taggedOp(*tl, l, 't') : op[0] == 'e' ? taggedOp(*el, l, 'e') : taggedOp(*xl, l, 'x');
+      if(!ok) printf("bad-op");
+      hxEndLine();
+      continue;
+    }
+    if(op[0] == 'm')
+    {
+      // PoolList<Multi>: mappend <csv of 0..7 ints> (append with that many arguments), mremove pos, mclear
+      if(hxIs(l, "mappend", 1))
+      {
+        size_t n;
+        int* d = parseInts(l.tok[1], n);
+        Multi* r = 0;
+        switch(n)
+        {
+        case 0: r = &ml->append(); break;
+        case 1: r = &ml->append(d[0]); break;
+        case 2: r = &ml->append(d[0], d[1]); break;
+        case 3: r = &ml->append(d[0], d[1], d[2]); break;
+        case 4: r = &ml->append(d[0], d[1], d[2], d[3]); break;
+        case 5: r = &ml->append(d[0], d[1], d[2], d[3], d[4]); break;
+        case 6: r = &ml->append(d[0], d[1], d[2], d[3], d[4], d[5]); break;
+        case 7: r = &ml->append(d[0], d[1], d[2], d[3], d[4], d[5], d[6]); break;
+        }
+        free(d);
+        if(!r) { printf("bad-op"); hxEndLine(); continue; }
+        PoolList<Multi>::Iterator last = ml->end(); --last;
+        if(r != &*last) printf("append-returns-other ");
+      }
+      else if(hxIs(l, "mremove", 1))
+      {
+        size_t pos = hxNum(l, 1);
+        if(pos >= ml->size()) { printf("bad-op"); hxEndLine(); continue; }
+        PoolList<Multi>::Iterator it = ml->begin();
+        for(size_t i = 0; i < pos; ++i) ++it;
+        ml->remove(it);
+      }
+      else if(hxIs(l, "mclear", 0)) ml->clear();
       else { printf("bad-op"); hxEndLine(); continue; }
-      printf("t %lu ", (unsigned long)tl->size());
-      if(tl->isEmpty()) printf("-");
+      printf("m %lu ", (unsigned long)ml->size());
+      if(ml->isEmpty()) printf("-");
       size_t i = 0;
-      for(List<Tagged>::Iterator it = tl->begin(); it != tl->end(); ++it, ++i) printf(i ? ",%d:%d" : "%d:%d", it->k, it->tag);
+      for(PoolList<Multi>::Iterator it = ml->begin(); it != ml->end(); ++it, ++i)
+      {
+        printf(i ? ",%d" : "%d", it->n);
+        for(int j = 0; j < 7; ++j) if(it->v[j] != -1 || j < it->n) printf(":%d", it->v[j]);
+      }
       hxEndLine();
       continue;
     }
@@ -428,6 +559,7 @@ int main()
     else if(hxIs(l, "aassign", 1)) { A& r = (x = y); if(&r != &x) printf("assign-returns-other "); show = 6; }
     else if(hxIs(l, "areserve", 2)) { x.reserve(hxNum(l, 2)); show = 5; }
     else if(hxIs(l, "aresize", 3)) { x.resize(hxNum(l, 2), (int)hxInt(l, 3)); show = 5; }
+    else if(hxIs(l, "aresized", 2)) { x.resize(hxNum(l, 2)); show = 5; }      // resize(n) with the default fill value T()
     else if(hxIs(l, "aappend", 2)) { int& r = x.append((int)hxInt(l, 2)); setRet(&r - (int*)x); show = 5; }
     else if(hxIs(l, "aappenda", 1)) { x.append(y); show = 6; }
     else if(hxIs(l, "aappendn", 2))
